@@ -11,6 +11,8 @@ search) or an invariant from the sidecar; loops over concrete spines are unrolle
 from __future__ import annotations
 
 import ast
+import sys
+import os
 import itertools
 from dataclasses import dataclass, field
 from typing import Any, Callable, Iterator
@@ -483,6 +485,21 @@ class Interp:
         fn = fndef if fndef is not None else extract.find_def(module, qualname)
         st = st or State()
         frame_env = dict(args)
+        if fndef is None and getattr(self, "bind_defaults", False) and isinstance(fn, (ast.FunctionDef, ast.AsyncFunctionDef)):
+            # second stage of verify_contract only: a parameter the contract does not mention takes its declared default
+            # (what a caller that does not pass it gets) instead of an unconstrained value
+            from verif.pyvc.calls import _default_value
+
+            a = fn.args
+            names = [x.arg for x in a.posonlyargs + a.args]
+            for pn, d in zip(names[len(names) - len(a.defaults):], a.defaults):
+                if pn not in frame_env:
+                    frame_env[pn] = _default_value(self, d, module, st)
+                    self.defaults_bound.append(f"{pn}={ast.unparse(d)}")
+            for pa, d in zip(a.kwonlyargs, a.kw_defaults):
+                if pa.arg not in frame_env and d is not None:
+                    frame_env[pa.arg] = _default_value(self, d, module, st)
+                    self.defaults_bound.append(f"{pa.arg}={ast.unparse(d)}")
         results: list[PathResult] = []
         for s2, out in self.exec_body(fn.body, st, Frame(module, f"{module}:{qualname}"), frame_env):
             self.npaths += 1
